@@ -48,3 +48,53 @@ def validate_curve(bit_length, key=hilbert3d):
             if sum(abs(p - q) for p, q in zip(a, b)) != 1:
                 problems.append(("not-adjacent", k, a, b))
     return problems
+
+
+# ----------------------------------------------------------------- 1-D and 2-D curves (RAMSES)
+
+# RAMSES hilbert2d state diagram, Fortran order (4, 2, 4); validated structurally by validate_curve2d
+STATE_DIAGRAM_2D_FLAT = [
+    1, 0, 2, 0, 0, 1, 3, 2,
+    0, 3, 1, 1, 0, 3, 1, 2,
+    2, 2, 0, 3, 2, 1, 3, 0,
+    3, 1, 3, 2, 2, 3, 1, 0,
+]
+
+
+def hilbert2d(x, y, bit_length):
+    cstate = 0
+    order = 0
+    for i in range(bit_length - 1, -1, -1):
+        b1 = (x >> i) & 1
+        b0 = (y >> i) & 1
+        sdigit = b1 * 2 + b0
+        nstate = STATE_DIAGRAM_2D_FLAT[sdigit + 4 * 0 + 8 * cstate]
+        hdigit = STATE_DIAGRAM_2D_FLAT[sdigit + 4 * 1 + 8 * cstate]
+        order = (order << 2) | hdigit
+        cstate = nstate
+    return order
+
+
+def hilbert1d(x, bit_length):
+    return x
+
+
+def validate_curve2d(bit_length):
+    n = 2**bit_length
+    problems, inv = [], {}
+    for x in range(n):
+        for y in range(n):
+            k = hilbert2d(x, y, bit_length)
+            if k in inv:
+                problems.append(("not-injective", (x, y)))
+            inv[k] = (x, y)
+            if bit_length > 1 and k // 4 != hilbert2d(x // 2, y // 2, bit_length - 1):
+                problems.append(("prefix", (x, y)))
+    if sorted(inv) != list(range(n * n)):
+        problems.append(("not-onto",))
+    else:
+        for k in range(n * n - 1):
+            a, b = inv[k], inv[k + 1]
+            if abs(a[0] - b[0]) + abs(a[1] - b[1]) != 1:
+                problems.append(("not-adjacent", k))
+    return problems
